@@ -13,7 +13,7 @@ EXPLANATION = (
     'only the callback slot of the option found by the schema walker.')
 
 T = pm.TOKENS
-FLOORS = {'parsecb': 5, 'validcb': 3, 'validcb2': 3, 'func': 1, 'freecb': 2, 'pf': 1, 'pff': 1, 'errfunc': 1}
+FLOORS = {'parsecb': 1, 'validcb': 1, 'validcb2': 1, 'func': 1, 'freecb': 1, 'pf': 1, 'pff': 1, 'errfunc': 1}
 
 
 def indirect_sites(c):
